@@ -91,6 +91,12 @@ pub enum Path {
     /// only meaningful as the first piece: the accumulator starts as `Default::default()`
     /// instead of `new()`, then add loop
     DefaultCtor,
+    /// like the four above, but from an iterator adaptor whose size_hint() lower bound is 0
+    /// (`filter(|_| true)`): nothing may depend on the hint
+    ExtendValLazy,
+    ExtendRefLazy,
+    CollectValLazy,
+    CollectRefLazy,
 }
 
 pub trait Item: Copy + Debug + PartialEq + Send + Sync + 'static {
@@ -142,6 +148,10 @@ pub trait Est: Clone + Debug + Serialize + DeserializeOwned + Send + 'static {
     fn collect_ref(items: &[Self::Item]) -> Self;
     fn extend_val(&mut self, items: &[Self::Item]);
     fn extend_ref(&mut self, items: &[Self::Item]);
+    fn collect_val_lazy(items: &[Self::Item]) -> Self;
+    fn collect_ref_lazy(items: &[Self::Item]) -> Self;
+    fn extend_val_lazy(&mut self, items: &[Self::Item]);
+    fn extend_ref_lazy(&mut self, items: &[Self::Item]);
     fn from_value(_first: Self::Item) -> Option<Self> {
         None
     }
@@ -164,6 +174,12 @@ pub trait Est: Clone + Debug + Serialize + DeserializeOwned + Send + 'static {
             Path::CollectRef if first_piece => *self = Self::collect_ref(items),
             Path::CollectVal => self.extend_val(items),
             Path::CollectRef => self.extend_ref(items),
+            Path::ExtendValLazy => self.extend_val_lazy(items),
+            Path::ExtendRefLazy => self.extend_ref_lazy(items),
+            Path::CollectValLazy if first_piece => *self = Self::collect_val_lazy(items),
+            Path::CollectRefLazy if first_piece => *self = Self::collect_ref_lazy(items),
+            Path::CollectValLazy => self.extend_val_lazy(items),
+            Path::CollectRefLazy => self.extend_ref_lazy(items),
             Path::DefaultCtor => {
                 if first_piece {
                     *self = Self::fresh_default();
@@ -227,6 +243,18 @@ macro_rules! scalar_ingest {
         }
         fn extend_ref(&mut self, items: &[f64]) {
             Extend::extend(self, items.iter())
+        }
+        fn collect_val_lazy(items: &[f64]) -> Self {
+            items.iter().copied().filter(|_| true).collect::<$t>()
+        }
+        fn collect_ref_lazy(items: &[f64]) -> Self {
+            items.iter().filter(|_| true).collect::<$t>()
+        }
+        fn extend_val_lazy(&mut self, items: &[f64]) {
+            Extend::extend(self, items.iter().copied().filter(|_| true))
+        }
+        fn extend_ref_lazy(&mut self, items: &[f64]) {
+            Extend::extend(self, items.iter().filter(|_| true))
         }
     };
 }
@@ -512,6 +540,22 @@ impl Est for Max {
             Estimate::add(self, x);
         }
     }
+    fn collect_val_lazy(items: &[f64]) -> Self {
+        items.iter().copied().filter(|_| true).collect::<Max>()
+    }
+    fn collect_ref_lazy(items: &[f64]) -> Self {
+        items.iter().filter(|_| true).collect::<Max>()
+    }
+    fn extend_val_lazy(&mut self, items: &[f64]) {
+        for &x in items {
+            Estimate::add(self, x);
+        }
+    }
+    fn extend_ref_lazy(&mut self, items: &[f64]) {
+        for &x in items {
+            Estimate::add(self, x);
+        }
+    }
 }
 
 macro_rules! pair_ingest {
@@ -527,6 +571,18 @@ macro_rules! pair_ingest {
         }
         fn extend_ref(&mut self, items: &[(f64, f64)]) {
             Extend::extend(self, items.iter())
+        }
+        fn collect_val_lazy(items: &[(f64, f64)]) -> Self {
+            items.iter().copied().filter(|_| true).collect::<$t>()
+        }
+        fn collect_ref_lazy(items: &[(f64, f64)]) -> Self {
+            items.iter().filter(|_| true).collect::<$t>()
+        }
+        fn extend_val_lazy(&mut self, items: &[(f64, f64)]) {
+            Extend::extend(self, items.iter().copied().filter(|_| true))
+        }
+        fn extend_ref_lazy(&mut self, items: &[(f64, f64)]) {
+            Extend::extend(self, items.iter().filter(|_| true))
         }
     };
 }
